@@ -6,7 +6,7 @@ props = [json.loads(l) for l in open(os.path.join(V, "properties.jsonl"))]
 
 CLAIMS = {
  "C01": dict(
-    text="Decides structural necessary conditions of BLTE identity on every path: each cipher block index an encoder hands out derives from the chunk's global position (the decoder's enumerate index), mode-byte / supported-mode / cipher-type tables agree between encoder and decoder, decoder size bounds equal the documented cap, chunk-table fields derive from the chunk they describe. Does not decide that compress/decompress or encrypt/decrypt are inverse functions (value level). Also: the decoder's block index enumerates the unfiltered chunk list.",
+    text="Decides structural necessary conditions of BLTE identity on every path: each cipher block index an encoder hands out derives from the chunk's global position (the decoder's enumerate index), mode-byte / supported-mode / cipher-type tables agree between encoder and decoder, decoder size bounds equal the documented cap, chunk-table fields derive from the chunk they describe. Does not decide that compress/decompress or encrypt/decrypt are inverse functions (value level). Also: the decoder's block index enumerates the unfiltered chunk list; an absolute seek in the BLTE readers restores a saved position; what is encrypted is the inner payload (mode byte + data) on every path.",
     note="Trusted: rustc MIR; flow-insensitive slices; anchors by (type, method). Not decided: codec inverses, boundary sizes, >4 GiB casts.",
     technique="MIR backward slicing (provenance of the block index), table extraction from SwitchInt/discriminants, sibling agreement", ref="§3 C01"),
  "C02": dict(
@@ -54,11 +54,11 @@ CLAIMS = {
     note="Trusted: loop/counter extraction on Analysis(Initial) MIR (tracing expansions ignored via from_expansion); f64::min/max absorb NaN.",
     technique="loop-counter extraction and closed form (E-table), clamp-presence slices (E-slice), edge gating", ref="§3 C14"),
  "C15": dict(
-    text="Decides: no explicit panic reachable from server entry points; every socket read under a timeout and a size bound; one spawned task per connection and no error edge leaves the accept loop; header/row column arity equal and typed columns fed by validated fields (syn AST of format! templates + MIR of BuildRecord::validate); newest build = descending build_time; request arity tests are equalities. End-to-end field equality is not decided. Also: a count-returning read in a loop leaves the loop on its own Ok(0); a response cell is the database field itself (only borrowing / defaulting adaptors).",
+    text="Decides: no explicit panic reachable from server entry points; every socket read under a timeout and a size bound; one spawned task per connection and no error edge leaves the accept loop; header/row column arity equal and typed columns fed by validated fields (syn AST of format! templates + MIR of BuildRecord::validate); newest build = descending build_time; request arity tests are equalities. End-to-end field equality is not decided. Also: a count-returning read in a loop leaves the loop on its own Ok(0); a response cell is the database field itself (only borrowing / defaulting adaptors); nothing is awaited between accept() and spawn; the product is looked up verbatim.",
     note="Trusted: astx (syn) template extraction; field-to-validator mapping from MIR slices; config-derived columns are outside the quantifier and only reported as information.",
     technique="call-graph reachability, dominator analysis, AST template/arity matching joined with MIR validator slices (E-ast)", ref="§3 C15"),
  "C16": dict(
-    text="Decides: both patchers apply the seek additively and every builder-emitted control triple carries a relative seek (0 or a difference); Ok(output) only through output.len() == parsed header.output_size; a computed seek is emitted on every path of its iteration and applied on every patcher iteration path except seek==0. patch(old,diff(old,new))==new itself is not decided. Also: control entries reach the control block unfiltered; the chunked builder advances its old-file cursor only together with an emitted diff of the same length.",
+    text="Decides: both patchers apply the seek additively and every builder-emitted control triple carries a relative seek (0 or a difference); Ok(output) only through output.len() == parsed header.output_size; a computed seek is emitted on every path of its iteration and applied on every patcher iteration path except seek==0. patch(old,diff(old,new))==new itself is not decided. Also: control entries reach the control block unfiltered; the chunked builder advances its old-file cursor only together with an emitted diff of the same length; the count returned by a read() bounds what is consumed.",
     note="Trusted: position variables identified by name in the patchers (premise check fails closed if they disappear).",
     technique="provenance slices of the seek operand (sibling agreement builder vs patcher), dominator gating of Ok returns", ref="§3 C16"),
  "C17": dict(
